@@ -494,6 +494,10 @@ func (u *Unit) checkPost(st *State, fr *frame, pos token.Pos) {
 			u.assumptions[fmt.Sprintf("ensures of %s assumed (trusted link to the ghost streams): %s", u.name, c.Text)] = true
 			continue
 		}
+		if c.Assumed {
+			u.assumptions[fmt.Sprintf("ensures clause of %s assumed, not proved from the body: %s", u.name, c.Text)] = true
+			continue
+		}
 		t := u.specBool(st, u.old, env, c.Expr, c)
 		name := fmt.Sprintf("ensures#%d", i+1)
 		u.oblige(st, name, "ensures", c.Props, t, pos, c.Text)
